@@ -73,6 +73,14 @@ def snakeLower (s : String) : String :=
     | [] => []
     | c :: r => c.toLower :: r.flatMap (fun x => if x.isUpper then ['_', x.toLower] else [x]))
 
+/-- decimal digits only (kernel-reducible; `String.toNat?` is not) -/
+def parseNat (s : String) : Option Nat :=
+  match s.toList with
+  | [] => none
+  | cs => cs.foldl (fun acc c => match acc with
+      | none => none
+      | some n => if '0' ≤ c ∧ c ≤ '9' then some (n * 10 + (c.toNat - 48)) else none) (some 0)
+
 def fieldOfGo (i : Nat) (f : Mav.Msg.GoField) : Option SField := do
   let nm := if f.mavname ≠ "" then f.mavname else snakeLower f.goName
   let ext := f.mavext == "true"
@@ -83,7 +91,7 @@ def fieldOfGo (i : Nat) (f : Mav.Msg.GoField) : Option SField := do
     if f.isArray then none else
     if f.mavlen == "" then pure { name := nm, ty := .char, arr := none, ext := ext, idx := i }
     else do
-      let n ← f.mavlen.toNat?
+      let n ← parseNat f.mavlen
       pure { name := nm, ty := .char, arr := some n, ext := ext, idx := i }
   else do
     let t ← Gen.fieldTypeFromGo f.elemType
@@ -105,5 +113,73 @@ def ofGo (s : Mav.Msg.GoStruct) : Option SDef := do
   let extAfterBase := (fs.dropWhile (!·.ext)).all (·.ext)
   let arrOk := fs.all (fun f => match f.arr with | some n => 1 ≤ n && n ≤ 255 | none => true)
   if extAfterBase && arrOk && sizeExt d ≤ 255 then some d else none
+
+end Mav.Spec.Msg
+
+/-! ### SPEC: payload encoding / decoding (serialization guide: little-endian scalars, element-wise arrays,
+    NUL-padded fixed-size char arrays, v2 trailing-zero truncation to no less than one byte, v1 without extensions) -/
+namespace Mav.Spec.Msg
+open Mav.Msg (FVal)
+
+/-- n little-endian bytes of x -/
+def leBytes : Nat → Nat → Bytes
+  | 0, _ => []
+  | n + 1, x => UInt8.ofNat (x % 256) :: leBytes n (x / 256)
+
+def ofLe : Bytes → Nat
+  | [] => 0
+  | b :: r => b.toNat + 256 * ofLe r
+
+def padTo (n : Nat) (bs : Bytes) : Bytes := bs.take n ++ List.replicate (n - bs.length) 0
+
+def encField (f : SField) (v : FVal) : Bytes :=
+  match v with
+  | .str s => padTo (f.arr.getD 1) s
+  | .num xs =>
+    let n := f.arr.getD 1
+    ((xs.take n) ++ List.replicate (n - xs.length) (0 : UInt64)).flatMap (fun (x : UInt64) => leBytes (tySize f.ty) x.toNat)
+
+def valOf (vals : List FVal) (i : Nat) : FVal := vals.getD i (.num [])
+
+def encodeFull (fs : List SField) (vals : List FVal) : Bytes := fs.flatMap (fun f => encField f (valOf vals f.idx))
+
+def dropTrailingZeros (p : Bytes) : Bytes := (p.reverse.dropWhile (· == 0)).reverse
+
+/-- v2 truncation: trailing zero bytes removed, but never below one byte -/
+def truncate (p : Bytes) : Bytes :=
+  match dropTrailingZeros p with
+  | [] => p.take 1
+  | q => q
+
+def encode (d : SDef) (isV2 : Bool) (vals : List FVal) : Bytes :=
+  if isV2 then truncate (encodeFull (wireOrder d) vals)
+  else encodeFull (stableSortDesc (d.fields.filter (!·.ext))) vals
+
+/-- offsets of the fields in wire order -/
+def offsets : Nat → List SField → List (SField × Nat)
+  | _, [] => []
+  | o, f :: r => (f, o) :: offsets (o + f.size) r
+
+def decField (f : SField) (isString : Bool) (slice : Bytes) : FVal :=
+  if isString then .str (slice.takeWhile (· != 0))
+  else
+    let w := tySize f.ty
+    .num ((List.range (f.arr.getD 1)).map (fun k => UInt64.ofNat (ofLe ((slice.drop (k * w)).take w))))
+
+inductive DecRes | ok (vals : List FVal) | errSize
+deriving Repr, DecidableEq
+
+/-- `isStr i` tells whether struct field i is a string (a property of the Go type, not of the wire) -/
+def decode (d : SDef) (isStr : Nat → Bool) (isV2 : Bool) (payload : Bytes) : DecRes :=
+  let zero (f : SField) : FVal := if isStr f.idx then .str [] else .num (List.replicate (f.arr.getD 1) 0)
+  let base := (d.fields.map zero)
+  if isV2 then
+    let p := payload ++ List.replicate (sizeExt d - payload.length) 0
+    .ok ((offsets 0 (wireOrder d)).foldl (fun acc (fo : SField × Nat) =>
+      acc.set fo.1.idx (decField fo.1 (isStr fo.1.idx) ((p.drop fo.2).take fo.1.size))) base)
+  else if payload.length ≠ sizeBase d then .errSize
+  else
+    .ok ((offsets 0 (stableSortDesc (d.fields.filter (!·.ext)))).foldl (fun acc (fo : SField × Nat) =>
+      acc.set fo.1.idx (decField fo.1 (isStr fo.1.idx) ((payload.drop fo.2).take fo.1.size))) base)
 
 end Mav.Spec.Msg
